@@ -9,15 +9,15 @@ import LyModel.XsdRe.GrammarLemmas
    and the printer is injective on them.
 2. `parse_total`: the fuel of the parser is never exhausted, for any input: `.error .fuel` is not a result.  The bound that
    suffices is `2 * length + 2` for `parseSeq` (`parseCharsD` passes `2 * length + 4`); `length + 1` does not suffice (an
-   opening parenthesis costs two units of fuel for one character: `(((`), so the remark in `Parse.lean` is too optimistic.
+   opening parenthesis or bracket costs two units of fuel for one character: `(((` with fuel 4 runs out).
 3. `canon_of_parse`: every tree the parser returns is a tree of the grammar (`Pat.Canon`).  With 1: the results of the parser
    are exactly the canonical trees (`parse_range`), and parsing the canonical text of a parse result gives the same tree
    (`render_parse_idempotent`).
-4. `parse_sound`: the XSD parser is sound for the declarative grammar `Derives` (`XsdRe/Grammar.lean`: productions [1]–[11]
-   and the escapes [23]–[27], [37] of Appendix F as an inductive relation between trees and texts): a text that parses to
-   `p` is a spelling of `p`.  PARTIAL: character class expressions `[…]` (productions [12]–[22]) are a lexical relation
-   delegated to `parseClass` (`ClassLex`), not given declaratively; completeness (`Derives p s → parseChars s = .ok p`) is
-   not proved (it holds for the canonical spelling, 1).
+4. `parse_iff_derives`: the XSD parser decides the declarative grammar `Derives` (`XsdRe/Grammar.lean`: productions [1]–[27],
+   [37] of Appendix F as inductive relations between trees and texts — regExp, branch, piece, quantifier, atom, character
+   class expressions with negation, subtraction, ranges and the dash rule, and the escapes): a text parses to `p` exactly
+   when it is a spelling of `p` (`parse_sound`, `parse_complete`); hence the grammar is unambiguous (`derives_unique`), and a
+   text is rejected exactly when the grammar derives it for no tree (`reject_iff`).
 -/
 namespace LyModel.Props.C18Parse
 open LyModel LyModel.XsdRe
@@ -139,11 +139,50 @@ example : ex1.Canon = true :=
 example : ¬ ∃ cs, parseChars cs = .ok (.cat (.cat (.chr 'a') (.chr 'b')) (.chr 'c')) := by
   rw [parse_range]; decide
 
-/-! ## 4. soundness for the declarative grammar (classes delegated) -/
+/-! ## 4. the parser decides the declarative grammar -/
 
 /-- A text the XSD parser accepts is derived by the grammar, with the tree the parser returns. -/
 theorem parse_sound (s : List Char) (p : Pat) (h : parseChars s = .ok p) : Derives p s :=
   parseChars_sound s p h
+
+/-- Every spelling the grammar derives for `p` parses to `p`. -/
+theorem parse_complete (s : List Char) (p : Pat) (h : Derives p s) : parseChars s = .ok p :=
+  parseChars_complete s p h
+
+theorem parse_iff_derives (s : List Char) (p : Pat) : parseChars s = .ok p ↔ Derives p s :=
+  ⟨parse_sound s p, parse_complete s p⟩
+
+/-- The grammar is unambiguous: a text is a spelling of at most one tree. -/
+theorem derives_unique (s : List Char) (p q : Pat) (hp : Derives p s) (hq : Derives q s) : p = q := by
+  have h1 := parse_complete s p hp
+  rw [parse_complete s q hq] at h1
+  exact (Except.ok.inj h1).symm
+
+/-- A text is rejected (with a syntax error: 2) exactly when it is a spelling of no tree. -/
+theorem reject_iff (s : List Char) : (∃ e, parseChars s = .error e) ↔ ¬ ∃ p, Derives p s := by
+  constructor
+  · rintro ⟨e, he⟩ ⟨p, hp⟩
+    rw [parse_complete s p hp] at he
+    cases he
+  · intro h
+    cases hs : parseChars s with
+    | error e => exact ⟨e, rfl⟩
+    | ok p => exact absurd ⟨p, parse_sound s p hs⟩ h
+
+/-- the trees that have a spelling are the canonical ones -/
+theorem derives_iff_canon (p : Pat) : (∃ s, Derives p s) ↔ p.Canon = true :=
+  ⟨fun ⟨s, h⟩ => canon_of_parse .xsd s p (parse_complete s p h), fun h => ⟨renderXsd p, parse_sound _ p (parse_renderXsd p h)⟩⟩
+
+/-- `a{2,1}` is a spelling of nothing -/
+example : ¬ ∃ p, Derives p "a{2,1}".toList := by
+  rw [← reject_iff]
+  cases h : parseChars "a{2,1}".toList with
+  | error e => exact ⟨e, rfl⟩
+  | ok p =>
+    exfalso
+    have : (match parseChars "a{2,1}".toList with | .error _ => true | .ok _ => false) = true := by decide +kernel
+    rw [h] at this
+    cases this
 
 /-- the canonical text of a canonical tree is one of its spellings -/
 theorem derives_render (p : Pat) (hc : p.Canon = true) : Derives p (renderXsd p) :=
@@ -152,6 +191,20 @@ theorem derives_render (p : Pat) (hc : p.Canon = true) : Derives p (renderXsd p)
 example : Derives ex1 "[a-c-[b]]{1,}|\\s{2,2}x{0,1}".toList :=
   parse_sound _ ex1 (eq_ok_of_parsesTo (by decide +kernel))
 example : Derives ex2 (renderXsd ex2) := derives_render ex2 (by decide +kernel)
+/-- Character class expressions: the parser (the text after `[`) reads exactly the spellings the grammar derives. -/
+theorem class_sound (f : Nat) (s r : List Char) (cc : CClass) (h : parseClass .xsd f s = .ok (cc, r)) :
+    ∃ t, s = t ++ r ∧ ClassExpr cc t :=
+  (LyModel.XsdRe.class_sound f).1 s cc r h
+
+theorem class_complete (cc : CClass) (t : List Char) (h : ClassExpr cc t) (rest : List Char) :
+    ∀ f ≥ t.length + 1, parseClass .xsd f (t ++ rest) = .ok (cc, rest) :=
+  fun f hf => h.parse f rest hf
+
+/-- `[-a-z\\--[^\\d-]]`: a raw `-` first, a range, an escaped `-`, a subtraction whose negated group ends with a raw `-` -/
+example : ∃ t, "-a-z\\--[^\\d-]]".toList = t ++ [] ∧
+    ClassExpr [⟨false, [.ch '-', .range 'a' 'z', .ch '-']⟩, ⟨true, [.esc false .dig, .ch '-']⟩] t :=
+  class_sound 40 _ [] _ (eq_ok_of_classParsesTo (by decide +kernel))
+
 /-- the relation is not trivial: `a` is not a spelling of `b`, `*` is not a spelling of anything canonical … -/
 example : ¬ Derives (.chr 'b') ['a'] := by
   intro h
